@@ -395,6 +395,8 @@ def served_and_taken_down(rep, fs):
         rep.notes.append('R20.h declined: the call of the error hook (text, files) was not found')
         return
     hook = hooks[0]
+    if owner is rwr:
+        _hook_is_the_builder(rep, repo, server, rwr, hook.func.id, [fi for fi, c in builders])
     given = _known_given(owner, hook, hook.func.id)
     rep.check('R20.h', fkey(owner, 'hook given'), given,
               'the error hook is only called where it is known to be given' if given else
@@ -443,6 +445,64 @@ def served_and_taken_down(rep, fs):
                   'every way %s passes %s.%s()' % (where, S, meth) if ok else
                   'there is a way from the error hook %s that skips %s.%s(): the old failsafe keeps the address (and keeps answering with '
                   'the old text) while the program is started again' % (where, S, meth), server, cleanup[meth][0])
+
+
+def _hook_is_the_builder(rep, repo, server, rwr, hookname, builders):
+    """What reaches the hook parameter of restart_with_reloader is the function that builds the failsafe: every call of
+    restart_with_reloader in the module passes the hook on (as a parameter of the calling function), and every call of
+    that function passes a builder (a function that calls flaw.create_app)."""
+    base = _c20()
+    ps = rwr.params()
+    if hookname not in ps or not builders:
+        return
+    builder_nodes = set(id(b.node) for b in builders)
+
+    def resolves_to_builder(fi, a):
+        a = base._deref(fi, a)
+        if not isinstance(a, ast.Name):
+            return None
+        scope = fi
+        while scope is not None:
+            g = server.functions.get('%s.%s' % (scope.qualname, a.id))
+            if g is not None:
+                return id(g.node) in builder_nodes
+            up = scope.qualname.rpartition('.')[0]
+            scope = server.functions.get(up) if up else None
+        g = server.functions.get(a.id)
+        if g is not None:
+            return id(g.node) in builder_nodes
+        return None
+
+    def follow(callee, pname, depth=0):
+        """Judge every call of ``callee`` in the module for its parameter ``pname``."""
+        if depth > 3:
+            return
+        from ..astutil import argn
+        cps = callee.params()
+        for q, fi in sorted(server.functions.items()):
+            for c in walk_body(fi.node):
+                if not (isinstance(c, ast.Call) and isinstance(c.func, ast.Name) and c.func.id == callee.name) or \
+                        any(isinstance(a, ast.Starred) for a in c.args) or any(k.arg is None for k in c.keywords):
+                    continue
+                a = argn(c, pname, cps.index(pname))
+                key = fkey(fi, 'hook passed to %s' % callee.name)
+                if a is None or (isinstance(a, ast.Constant) and a.value is None):
+                    rep.fail('R20.h', key, '%s calls %s without the error hook: a start-up that fails is never answered with the failsafe'
+                             % (fi.qualname, short(c, 50)), server, c)
+                    continue
+                p = base._param_behind(fi, a)
+                if p is not None:
+                    rep.ok('R20.h', key, '%s passes its own hook parameter %s on' % (fi.qualname, p), server, c)
+                    follow(fi, p, depth + 1)
+                    continue
+                v = resolves_to_builder(fi, a)
+                if v is None:
+                    rep.notes.append('R20.h declined: what %s passes as the error hook (%s) cannot be followed' % (fi.qualname, short(a, 40)))
+                    continue
+                rep.check('R20.h', key, v, 'the hook is the function that builds the failsafe' if v else
+                          '%s passes %s as the error hook, which does not build the failsafe (it never calls flaw.create_app)'
+                          % (fi.qualname, short(a, 40)), server, c)
+    follow(rwr, hookname)
 
 
 def _builder_chain(rep, repo, server, fi, create_call):
